@@ -64,10 +64,12 @@ class FakeSocket(object):
         return 1000 + self.ident
 
     def send(self, data):
+        self.net.maybe_refuse(self, data)
         self.net.transmit(self, self.dest, bytes(data))
         return len(data)
 
     def sendto(self, data, addr):
+        self.net.maybe_refuse(self, data)
         self.net.transmit(self, (addr[0], addr[1]), bytes(data))
         return len(data)
 
@@ -174,9 +176,18 @@ class Network(object):
         self.select_limit = 2000000
         self.epsilon = 1e-6
         self.latency = 0.0
+        self.send_fault = None
 
     def attach(self, host, port, endpoint):
         self.endpoints[(host, port)] = endpoint
+
+    def maybe_refuse(self, sock, data):
+        """send_fault(sock, data) -> exception to raise instead of sending
+        (as the kernel does when an ICMP error is pending) or None."""
+        if self.send_fault is not None:
+            exc = self.send_fault(sock, data)
+            if exc is not None:
+                raise exc
 
     def transmit(self, sock, dest, data):
         self.sent.append((self.clock.now, sock.ident, dest, data))
